@@ -436,7 +436,10 @@ def dict_get(st, d, key, default):
 
 
 def int_from_bytes(eng, st, args, kwargs):
-    data, order = args[0], args[1] if len(args) > 1 else kwargs.get("byteorder")
+    data = args[0] if args else kwargs.get("bytes")
+    order = args[1] if len(args) > 1 else kwargs.get("byteorder")  # omitted: TypeError before Python 3.11 - outside the subset
+    if order not in ("big", "little") or set(kwargs) - {"bytes", "byteorder", "signed"}:
+        raise EngineUnsupported("int.from_bytes with a symbolic byte order")
     signed = bool(kwargs.get("signed"))
     if isinstance(data, bytes):
         return int.from_bytes(data, order, signed=signed)
@@ -473,7 +476,10 @@ def int_from_bytes(eng, st, args, kwargs):
 
 
 def int_to_bytes(eng, st, v, args, kwargs):
-    n, order = args[0], args[1] if len(args) > 1 else kwargs.get("byteorder")
+    n = args[0] if args else kwargs.get("length", 1)
+    order = args[1] if len(args) > 1 else kwargs.get("byteorder")  # omitted: TypeError before Python 3.11 - outside the subset
+    if not isinstance(n, int) or order not in ("big", "little") or set(kwargs) - {"length", "byteorder", "signed"} or kwargs.get("signed"):
+        raise EngineUnsupported("int.to_bytes with a symbolic length / byte order or signed=True")
     if isinstance(v, int):
         try:
             return v.to_bytes(n, order)
